@@ -23,6 +23,12 @@ def tok_lines(stdout):
     return out
 
 
+def tok_values(stdout):
+    """-> [(type, value, line, col)] of the token listing (a value may span several lines of the listing)"""
+    return [(m.group(1), m.group(2), int(m.group(3)), int(m.group(4)))
+            for m in re.finditer(r"Type: (\w+), Value: '(.*?)', At: Ln (\d+),Col (\d+)\n", stdout, re.S)]
+
+
 def model_tokens(line):
     if line == 'P0028': return 'P0028'
     left, _, right = line.partition('|')
@@ -103,6 +109,16 @@ def run(ctx):
     for i in range(3 if ctx.quick() else 20):
         pool = [c for c in NONASCII if c in CP1252_OK]
         progs.append(('syntax-error', f"PROGRAM N8700\nVAR\n  N8701 : INT;\nEND_VAR\n(* {rng.choice(pool)}{rng.choice(pool)} *) N8701 := '{rng.choice(pool)}' + + ;\nEND_PROGRAM\n"))
+    # large files with a multi-byte character across every likely block boundary of a reader (4, 8, 16, 32, 64 KiB), for the
+    # file with and without a byte order mark: a comment is padded so that the character starts 1 byte before the boundary
+    for B in ([8192, 65536] if ctx.quick() else [4096, 8192, 16384, 32768, 65536]):
+        for ch in ('é', '€'):
+            for shift in (0, 3):        # 3 = the length of the UTF-8 byte order mark
+                head = 'PROGRAM N8900\nVAR\n  N8901 : INT;\nEND_VAR\n(* '
+                pad = B - 1 - shift - len(head.encode('utf-8'))
+                if pad < 0: continue
+                body = head + 'x' * pad + ch + ch + ' *)\nN8901 := 1 + ;\nEND_PROGRAM\n'
+                progs.append(('block-boundary', body))
     jobs = []
     for pi, (kind, txt) in enumerate(progs):
         for enc, data in encodings(txt).items():
@@ -181,6 +197,19 @@ def run(ctx):
                 ok = tok_lines(r['stdout']) == toks and (r['rc'] == 0) == (nerr == 0)
             if not ok:
                 ctx.corr_fail.append({'stream': stream, 'case': show, 'model': mo[:300], 'impl': obs + ' ' + str(tok_lines(r['stdout']))[:300]})
+        # oracle: along one line the columns of the tokens grow (whatever bytes the tokens hold)
+        if action == 'tokenize' and r['rc'] == 0:
+            tl = tok_values(r['stdout'])
+            for (t1, v1, l1, c1), (t2, v2, l2, c2) in zip(tl, tl[1:]):
+                # (the listing writes a line feed as `\\n` and a carriage return as `\\r`)
+                if l1 != l2 or '\n' in v1 or '\\n' in v1 or '\x0c' in v1: continue
+                widths = set()
+                for v in (v1, v1.replace('\\r', '\r')):
+                    widths |= {len(v), len(v.encode('utf-8')), len(v.encode('utf-16-le')) // 2}
+                if (c2 - c1) not in widths:
+                    ctx.violations.append({'stream': stream, 'case': show, 'impl': f'{t1} {v1!r} at {l1}:{c1}, then {t2} at {l2}:{c2}', 'model': None,
+                                           'what': f'the token {t2} follows {t1} ({v1!r}) on line {l1}, but its column {c2} is not the column {c1} of {t1} plus the width of its text'})
+                    break
         # oracle (a): identical result in every encoding
         if stream == 'enc':
             ctx.count(f'encoding:{b}')
